@@ -83,6 +83,49 @@ fn main() {
         println!("{feats:?}");
         return;
     }
+    if cmd == "dbg-trace" {
+        // developer aid: per-tick trace of a (cfg, events) case file
+        use gen::hist::*;
+        use kanata_state_machine::oskbd::KeyValue;
+        let txt = std::fs::read_to_string(&args[1]).expect("file");
+        let v: Value = serde_json::from_str(&txt).expect("json");
+        let case = if v.get("case").is_some() { v["case"].clone() } else { v.clone() };
+        let evs = hist_from_json(&case["events"]).expect("events");
+        let extra: u64 = args.get(2).and_then(|s| s.parse().ok()).unwrap_or(60);
+        let mut sim = sim::Sim::new(case["cfg"].as_str().unwrap()).expect("cfg");
+        let mut dump = |sim: &mut sim::Sim, label: String| {
+            let l = sim.k.layout.b();
+            let from = sim.outs.len();
+            let _ = from;
+            println!("{label:>10} t={} states={:?} queue={} waiting={} oneshot={:?} idle={}", sim.ticks, l.states, l.queue.len(), l.waiting.is_some(), l.oneshot.keys, sim.k.is_idle());
+        };
+        let mut shown = 0;
+        for e in &evs {
+            match e {
+                Ev::Gap(g) => {
+                    for _ in 0..*g {
+                        sim.tick();
+                        let _ = sim.k.can_block_update_idle_waiting(1);
+                        println!("   out: {}", sim::fmt_outs(&sim.outs[shown..]));
+                        shown = sim.outs.len();
+                        dump(&mut sim, "tick".into());
+                    }
+                }
+                Ev::Press(k) => { sim.input(*k, KeyValue::Press); dump(&mut sim, format!("d:{}", sim::out_name(*k))); }
+                Ev::Release(k) => { sim.input(*k, KeyValue::Release); dump(&mut sim, format!("u:{}", sim::out_name(*k))); }
+                Ev::Repeat(k) => { sim.input(*k, KeyValue::Repeat); dump(&mut sim, format!("r:{}", sim::out_name(*k))); }
+                Ev::Tap(k) => { sim.input(*k, KeyValue::Tap); dump(&mut sim, format!("tap:{}", sim::out_name(*k))); }
+            }
+        }
+        for _ in 0..extra {
+            sim.tick();
+            let _ = sim.k.can_block_update_idle_waiting(1);
+            println!("   out: {}", sim::fmt_outs(&sim.outs[shown..]));
+            shown = sim.outs.len();
+            dump(&mut sim, "tick".into());
+        }
+        return;
+    }
     if cmd == "list" {
         for p in props::all() {
             println!("{}", p.id());
